@@ -750,3 +750,93 @@ pub fn statements_of(text: &str) -> Vec<SExp> {
     }
     out
 }
+
+// ------------------------------------------------------------------------------------------ whole modules (source stream)
+fn type_names_of_type(t: &ast::Type, out: &mut Vec<ast::ScopedIdentifier>) {
+    type_names_type(
+        &ast::TypeId {
+            base: t.clone(),
+            abstract_declarator: ast::Declarator::Empty,
+        },
+        out,
+    );
+}
+
+fn type_names_function(f: &ast::FunctionDefinition, out: &mut Vec<ast::ScopedIdentifier>) {
+    type_names_of_type(&f.returntype.return_type, out);
+    for p in &f.params {
+        type_names_of_type(&p.param_type, out);
+        type_names_decl(&p.declarator, out);
+        if let Some(e) = &p.default_expr {
+            type_names_expr(e, out);
+        }
+    }
+    if let Some(b) = &f.body {
+        b.iter().for_each(|s| type_names_stmt(s, out));
+    }
+}
+
+/// names used as types anywhere in the module
+pub fn type_names_module(defs: &[ast::RootDefinition], out: &mut Vec<ast::ScopedIdentifier>) {
+    for d in defs {
+        match d {
+            ast::RootDefinition::Function(f) => type_names_function(f, out),
+            ast::RootDefinition::Struct(s) => {
+                for b in &s.base_types {
+                    type_names_of_type(b, out);
+                }
+                for m in &s.members {
+                    match m {
+                        ast::StructEntry::Variable(v) => type_names_of_type(&v.ty, out),
+                        ast::StructEntry::Method(f) => type_names_function(f, out),
+                    }
+                }
+            }
+            ast::RootDefinition::GlobalVariable(g) => type_names_of_type(&g.global_type, out),
+            ast::RootDefinition::ConstantBuffer(c) => c.members.iter().for_each(|m| type_names_of_type(&m.ty, out)),
+            ast::RootDefinition::Namespace(_, inner) => type_names_module(inner, out),
+            _ => {}
+        }
+    }
+}
+
+fn resolve_function(f: &ast::FunctionDefinition, types: &[ast::ScopedIdentifier]) -> ast::FunctionDefinition {
+    let mut f = f.clone();
+    if let Some(b) = &f.body {
+        f.body = Some(b.iter().map(|s| resolve_stmt_keep(s, types)).collect());
+    }
+    f
+}
+
+/// `resolve_stmt` restricted to what matters for a parser-produced tree: the statement-level ambiguity and the
+/// expression-level ambiguity nodes; everything else (locations included) stays as it is
+fn resolve_stmt_keep(s: &ast::Statement, types: &[ast::ScopedIdentifier]) -> ast::Statement {
+    let mut r = resolve_stmt(s, types);
+    r.location = s.location;
+    r
+}
+
+/// the module as the type checker reads it when exactly `types` are type names (function bodies only)
+pub fn resolve_module(defs: &[ast::RootDefinition], types: &[ast::ScopedIdentifier]) -> Vec<ast::RootDefinition> {
+    defs.iter()
+        .map(|d| match d {
+            ast::RootDefinition::Function(f) => ast::RootDefinition::Function(resolve_function(f, types)),
+            ast::RootDefinition::Struct(s) => {
+                let mut s = s.clone();
+                s.members = s
+                    .members
+                    .iter()
+                    .map(|m| match m {
+                        ast::StructEntry::Method(f) => ast::StructEntry::Method(resolve_function(f, types)),
+                        other => other.clone(),
+                    })
+                    .collect();
+                ast::RootDefinition::Struct(s)
+            }
+            ast::RootDefinition::Namespace(n, inner) => {
+                ast::RootDefinition::Namespace(n.clone(), resolve_module(inner, types))
+            }
+            other => other.clone(),
+        })
+        .collect()
+}
